@@ -27,7 +27,7 @@ json.dump({'breaks':[pid],'origin':'written by an independent sub-agent that saw
  'confirmed':'builder re-ran in the scratch worktree: existing suite with the change passes (%s tests incl. doctests), demo.rs fails with the change and passes without'%nt},open(d+'/meta.json','w'),indent=1)
 PY
   cd /verif
-  tools/isotest.sh $PID-$X$SUFFIX /verif/seeded/$PID-$X$SUFFIX/patch.diff $CHECKS
+  [ -z "$NOTEST" ] && tools/isotest.sh $PID-$X$SUFFIX /verif/seeded/$PID-$X$SUFFIX/patch.diff $CHECKS
 else
   echo "NOT CONFIRMED"
 fi
